@@ -207,7 +207,16 @@ def kernels():
 # generators
 # ---------------------------------------------------------------------------------------------------------
 def _scale(rng, tier):
-    return 2.0 ** (rng.randint(-30, 30) if tier == "thorough" else rng.randint(-10, 10))
+    """power-of-two scale (exact in binary64). Absolute thresholds hidden in the code (an epsilon guard, an atol) only
+    bite on very small or very large features, so every tier draws a share of its cases at extreme scales."""
+    if tier in ("thorough", "search"):
+        return 2.0 ** rng.randint(-30, 30)
+    r = rng.random()
+    if r < 0.2:
+        return 2.0 ** rng.randint(-30, -12)
+    if r < 0.3:
+        return 2.0 ** rng.randint(12, 30)
+    return 2.0 ** rng.randint(-10, 10)
 
 
 def _tri(rng, scale, degenerate=False, offset=None):
@@ -549,11 +558,14 @@ def _normals_oracle(c, o):
     for i, t in enumerate(ts):
         n = _cross(_sub(t[1], t[0]), _sub(t[2], t[0]))
         nn = _dot(n, n)
-        mag = max([1] + [abs(x) for x in n])
+        # tolerances relative to the size of the triangle itself (products of its edge components), not floored at 1:
+        # a small triangle is judged at its own scale
+        e = max([abs(x) for x in _sub(t[1], t[0]) + _sub(t[2], t[0])] + [Fr(1, 2 ** 1000)])
+        mag = 2 * e * e
         if not _finite(o["raw"][i]) or not _vclose(o["raw"][i], n, mag):
             return "un-normalised normal of triangle %d is not cross(p2-p1, p3-p1)" % i
         a2 = Fr(float(o["area"][i])) ** 2
-        if abs(4 * a2 - nn) > 4 * TOL * max(1, nn) or o["area"][i] < 0:
+        if abs(4 * a2 - nn) > 4 * TOL * mag * mag or o["area"][i] < 0:
             return "area of triangle %d is not half the length of the cross product" % i
         variants = (("cyc", 1), ("shift", 1), ("swap", -1), ("single", 1))
         if nn == 0:
@@ -575,7 +587,7 @@ def _normals_oracle(c, o):
                 return "%s variant: un-normalised normal of triangle %d is not %s the original" % (name, i, "minus" if sg < 0 else "equal to")
             if not _finite(o[name + "_unit"][i]) or not _vclose(o[name + "_unit"][i], [sg * x for x in uf], 1):
                 return "%s variant: normalised normal of triangle %d is not %s the original" % (name, i, "minus" if sg < 0 else "equal to")
-            if abs(Fr(float(o[name + "_area"][i])) - Fr(float(o["area"][i]))) > TOL * max(1, abs(Fr(float(o["area"][i])))):
+            if abs(Fr(float(o[name + "_area"][i])) - Fr(float(o["area"][i]))) > TOL * abs(Fr(float(o["area"][i]))):
                 return "%s variant: area of triangle %d changed" % (name, i)
     return None
 
@@ -600,9 +612,15 @@ def _bary_oracle(c, o):
         h = _dot(_sub(p, t[0]), n) / s
         proj = [p[j] - h * n[j] for j in range(3)]
         rec = [sum(w[m] * t[m][j] for m in range(3)) for j in range(3)]
-        mag = max([1] + [abs(x) for v in t for x in v] + [abs(x) for x in p]) * wm
+        # tolerance relative to the size of the data (no floor at 1: small triangles must be judged at their own scale)
+        mag = max([abs(x) for v in t for x in v] + [abs(x) for x in p]) * wm
         if any(abs(rec[j] - proj[j]) > TOL * mag for j in range(3)):
             return "weights of row %d do not reconstruct the projection of the point onto the triangle's plane" % i
+        # the weights that do reconstruct the projection are unique (and independent of scale)
+        exact, _, _, _ = _weights(t, p)
+        if any(abs(w[m] - exact[m]) > 1000 * TOL * max(1, max(abs(x) for x in exact)) for m in range(3)):
+            return "weights of row %d are %s, the weights of the projected point are %s" % (
+                i, [float(x) for x in w], [float(x) for x in exact])
     return None
 
 
@@ -656,7 +674,7 @@ def _sample_fixed_oracle(c, o):
             a, b = 1 - a, 1 - b
         t = ts[fi]
         want = [t[0][k] + a * (t[1][k] - t[0][k]) + b * (t[2][k] - t[0][k]) for k in range(3)]
-        mag = max([1] + [abs(x) for v in t for x in v])
+        mag = max([abs(x) for v in t for x in v] + [Fr(1, 2 ** 1000)])
         if not _finite(p) or not _vclose(p, want, mag):
             # the point may still be a legitimate point of the triangle (a different but valid use of the draws)
             if _area_sq(t) != 0:
@@ -695,7 +713,7 @@ def _sample_default_oracle(c, o):
             return "sample %d was drawn from face %d whose weight is zero" % (j, fi)
         t = ts[fi]
         w, off, nrm, s = _weights(t, _F(p))
-        mag = max([1] + [abs(x) for v in t for x in v])
+        mag = max([abs(x) for v in t for x in v] + [Fr(1, 2 ** 1000)])
         if min(w) < -TOL or off * off > TOL * TOL * s * mag * mag:
             return "sample %d = %r is not inside triangle %d" % (j, p, fi)
     return None
